@@ -452,10 +452,18 @@ PLAN = {
               dict(harness="c03.lines.map", bound=1),
               dict(harness="c03.comb", bound=2), dict(harness="c03.timeout_fires", bound=1),
               dict(harness="c03.chain", bound=2), dict(harness="c03.policyfault", bound=1)],
+    # thorough = quick + one more deviation; where that is out of reach for all cells (tools/size_plan.py)
+    # the extra deviation is spent on the cells around the cancel-from-outside paths
     "thorough": [dict(harness="c03.layers", bound=3),
-                 dict(harness="c03.lines.retry", bound=2), dict(harness="c03.lines.poll", bound=2),
+                 dict(harness="c03.lines.retry", bound=1),
+                 dict(harness="c03.lines.retry", bound=2, select=lambda p: p["fails"] == 1 and p["sleep"] == 1.0 and not p["warm"]),
+                 dict(harness="c03.lines.poll", bound=2),
                  dict(harness="c03.lines.throttle", bound=2), dict(harness="c03.lines.timeout", bound=2),
                  dict(harness="c03.lines.map", bound=2),
-                 dict(harness="c03.comb", bound=3), dict(harness="c03.timeout_fires", bound=2),
-                 dict(harness="c03.chain", bound=3), dict(harness="c03.policyfault", bound=2)],
+                 dict(harness="c03.comb", bound=2),
+                 dict(harness="c03.comb", bound=3, select=lambda p: "refuse_then_cancel" in p["outs"]),
+                 dict(harness="c03.timeout_fires", bound=2),
+                 dict(harness="c03.chain", bound=2),
+                 dict(harness="c03.chain", bound=3, select=lambda p: p["kind"] in ("f_map", "f_flat_map", "nocancel", "proxy")),
+                 dict(harness="c03.policyfault", bound=2)],
 }
